@@ -6,6 +6,7 @@ import (
 	"go/types"
 	"golang.org/x/tools/go/ssa"
 	"os"
+	"sort"
 )
 
 func init() {
@@ -214,9 +215,22 @@ func init() {
 				allSlices = true
 				continue
 			}
+			if a == "-readers" {
+				allSlices = true
+				readersOnly = true
+				continue
+			}
 			pk[p.pkgPath(a)] = true
 		}
-		ruleGen(p, r, "R-GEN", func(f *ssa.Function) bool { return fnPkg(f) != nil && pk[fnPkg(f).Path()] }, nil, 1)
+		ruleGen(p, r, "R-GEN", func(f *ssa.Function) bool {
+			if fnPkg(f) == nil || !pk[fnPkg(f).Path()] {
+				return false
+			}
+			if !readersOnly {
+				return true
+			}
+			return isReader(f)
+		}, nil, 1)
 		nb := 0
 		for _, o := range r.Obls {
 			if o.Status == Violated {
@@ -335,4 +349,49 @@ func narrowUse(v ssa.Value, depth int, seen map[ssa.Value]bool) string {
 		}
 	}
 	return ""
+}
+
+var readersOnly = false
+
+func init() {
+	// vsa rgenkeys: prints the table rgenNotClaimedAccess (underivable accesses of the not-claimed functions of R-GEN)
+	if len(os.Args) > 1 && os.Args[1] == "rgenkeys" {
+		p := Load(LoadOpts{Dir: repoDir(), Patterns: []string{"./..."}, ModPath: modPath, MinPkgs: 13})
+		r := NewReport("X", "quick")
+		got := map[string]map[string]bool{}
+		genAccessKeys = func(fn, d string) {
+			if got[fn] == nil {
+				got[fn] = map[string]bool{}
+			}
+			got[fn][d] = true
+		}
+		pk := map[string]bool{}
+		for _, k := range []string{"font/opentype/tables", "font/cff", "font/opentype", "font", "font/cff/interpreter"} {
+			pk[p.pkgPath(k)] = true
+		}
+		ruleGenReaders(p, r, "R-GEN", func(f *ssa.Function) bool { return fnPkg(f) != nil && pk[fnPkg(f).Path()] }, rgenNotClaimed, 1)
+		var fns []string
+		for fn := range got {
+			fns = append(fns, fn)
+		}
+		sort.Strings(fns)
+		fmt.Println("var rgenNotClaimedAccess = map[string][]string{")
+		for _, fn := range fns {
+			var ds []string
+			for d := range got[fn] {
+				ds = append(ds, d)
+			}
+			sort.Strings(ds)
+			fmt.Printf("\t%q: {", fn)
+			for i, d := range ds {
+				if i > 0 {
+					fmt.Print(", ")
+				}
+				fmt.Printf("%q", d)
+			}
+			fmt.Println("},")
+		}
+		fmt.Println("}")
+		os.Exit(0)
+	}
 }
